@@ -53,3 +53,21 @@ class Scratch:
                         first = " | ".join(x.strip() for x in lines[i:i + 3])[:600]
             out[p] = {"exit": rc, "classes": sorted(classes), "first_violation": first}
         return out, ""
+
+    def run_wb(self, props, scale, seed=20260926):
+        """The second-width-set run (cargo feature widths-b), as bin/check runs it (scale 0.5 quick, 10 thorough)."""
+        r = sh(f"cd {self.sim} && CARGO_NET_OFFLINE=true cargo build --release --offline --features widths-b --target-dir {self.sim}/target-wb")
+        if r.returncode != 0:
+            return None, r.stdout[-2000:]
+        out = {}
+        for p in props:
+            r = sh(f"cd {self.sim} && {self.sim}/target-wb/release/simctl run --property {p} --tier quick --scale {scale} --seed {seed} --build-label widthsB --known {self.root}/known.json --replays {self.root}/replays")
+            classes, first = set(), ""
+            lines = r.stdout.splitlines()
+            for i, l in enumerate(lines):
+                if "class=" in l and "codec=" in l:
+                    classes.add(l.split("class=")[1].split()[0] + "/" + l.split("codec=")[1].split()[0])
+                if l.startswith("VIOLATION") and not first:
+                    first = " | ".join(x.strip() for x in lines[i:i + 3])[:600]
+            out[p] = {"exit": r.returncode, "classes": sorted(classes), "first_violation": first}
+        return out, ""
